@@ -11,6 +11,7 @@ import (
 	"go/constant"
 	"go/token"
 	"go/types"
+	"regexp"
 	"strings"
 
 	"golang.org/x/tools/go/packages"
@@ -558,6 +559,8 @@ func c04b(c *Ctx, r *Report) {
 
 // ---------------------------------------------------------------------------------------------
 
+var reKindTest = regexp.MustCompile(`\.current\.Kind == "([A-Za-z_]+)"`)
+
 func c04c(c *Ctx, r *Report) {
 	const clause = "C04.c"
 	// (1) directive word -> Kind
@@ -576,31 +579,26 @@ func c04c(c *Ctx, r *Report) {
 	fd := c.need(r, clause, "Parser", "parser", "parseDeclare")
 	if fp != nil && fd != nil {
 		info := fp.Pkg.TypesInfo
-		// kinds for which parseDeclare calls parsePrecList
+		// kinds for which parseDeclare calls parsePrecList: the positive kind tests that guard the call
+		// (`if current.Is(K1) || current.Is(K2)` or `case K1, K2:` — both render as `current.Kind == K`)
 		ast.Inspect(fd.Decl.Body, func(n ast.Node) bool {
-			is, ok := n.(*ast.IfStmt)
-			if !ok {
+			call, ok := n.(*ast.CallExpr)
+			if !ok || callee(info, call) != fp.Obj {
 				return true
 			}
-			calls := false
-			ast.Inspect(is.Body, func(m ast.Node) bool {
-				if call, ok := m.(*ast.CallExpr); ok && callee(info, call) == fp.Obj {
-					calls = true
-				}
-				return true
-			})
-			if !calls {
+			st := stmtOf(fd.Decl.Body, call)
+			if st == nil {
 				return true
 			}
-			ast.Inspect(is.Cond, func(m ast.Node) bool {
-				if call, ok := m.(*ast.CallExpr); ok && strings.HasSuffix(shortFuncName(callee(info, call)), "Token).Is") && len(call.Args) == 1 {
-					if k, ok := constString(info, call.Args[0]); ok {
-						precKinds = append(precKinds, k)
-					}
+			for _, a := range guardAtoms(c, fd, st) {
+				if strings.HasPrefix(a, "!") || strings.HasPrefix(a, "no-earlier") {
+					continue
 				}
-				return true
-			})
-			return false
+				for _, m := range reKindTest.FindAllStringSubmatch(a, -1) {
+					precKinds = append(precKinds, m[1])
+				}
+			}
+			return true
 		})
 		// variable flowing into PrecDef.AssocType
 		var assocVar types.Object
